@@ -340,6 +340,11 @@ impl C04 {
                 }
             } else {
                 obs.reach("display_branch_full_scale");
+                // documented (README "Formatting"): within the thresholds the number is printed in
+                // standard decimal notation
+                if has_exp {
+                    fails.push(base_fail("R4-display-thresholds", op, &env, c, format!("{} leading / {} trailing zeros are within the documented thresholds (5 / 15) but the text uses an exponent: {:?}", leading_zeros.max(0), trailing_zeros.max(0), clip(text, 60))));
+                }
                 if leading_zeros == LEADING_ZERO_THRESHOLD {
                     obs.reach("display_at_leading_zero_threshold");
                 }
